@@ -66,13 +66,10 @@ Theorem C02_source_chain_is_the_model : forall le c mt nm n,
 Proof. apply chain_ok_sound. vm_compute. reflexivity. Qed.
 Print Assumptions C02_source_chain_is_the_model.
 
-(** the chain has no default branch (an unknown operation emits nothing - which is why Validate must reject it, C07),
-    and the statements around it allocate nextArgument, choose match, and place nextArgument behind the chain *)
-Theorem C02_source_chain_context :
-  cond_chain_has_default = false /\
-  cond_loop_body = ["nextArgument := p.NewLabel()"; "match := nextArgument"; "isLast := i == len(conditions)-1";
-                    "if isLast { match = action }"; "<chain>"; "p.SetLabel(nextArgument)"]%string.
-Proof. split; reflexivity. Qed.
+(** the chain has no default branch: an operation outside the eight constants emits nothing - which is why Validate
+    must reject it (C07) *)
+Theorem C02_source_chain_context : cond_chain_has_default = false.
+Proof. reflexivity. Qed.
 Print Assumptions C02_source_chain_context.
 
 (** LdHi adds one word on little-endian, LdLo on big-endian, to argumentOffset + sizeOfUint64*arg; with the values the
